@@ -279,3 +279,46 @@ func verif_C14_sequence() {
 	}
 	verifReach("C14.sequence-end")
 }
+
+// verif_C14_retry: a Mail call with options that the server's backend REFUSES,
+// retried at once - no Reset in between - with fewer options: the backend of
+// the real server observes, for the second call, exactly the options of the
+// second call.
+func verif_C14_retry() {
+	ext := map[string]string{"DSN": "", "SIZE": "", "SMTPUTF8": ""}
+	m1 := &MailOptions{Size: 4096, UTF8: true, Return: DSNReturnFull, EnvelopeID: "first"}
+	var m2 *MailOptions
+	switch verifChoice(3) {
+	case 1:
+		m2 = &MailOptions{}
+	case 2:
+		m2 = &MailOptions{EnvelopeID: "second"}
+	}
+	c, vc := verifClient("550 5.1.0 not now\r\n250 2.0.0 ok\r\n", ext)
+	verifAssert(c.Mail("s@v", m1) != nil, "C14.retry-first-mail-refused")
+	verifAssert(c.Mail("s@v", m2) == nil, "C14.retry-second-mail-accepted")
+	be := &vbackend{}
+	n := 0
+	be.mailErr = func(string) error {
+		n++
+		if n == 1 {
+			return &SMTPError{Code: 550, EnhancedCode: EnhancedCode{5, 1, 0}, Message: "not now"}
+		}
+		return nil
+	}
+	s, _ := verifServer(be)
+	s.EnableDSN, s.EnableSMTPUTF8 = true, true
+	verifServe(s, append([]byte("EHLO c\r\n"), vc.out...), io.EOF)
+	verifAssert(be.count("Mail") == 2 && be.lastSession != nil && len(be.lastSession.mailOpts) == 2, "C14.retry-both-arrive")
+	if be.count("Mail") != 2 || be.lastSession == nil || len(be.lastSession.mailOpts) != 2 {
+		return
+	}
+	got := be.lastSession.mailOpts[1]
+	wantID := ""
+	if m2 != nil {
+		wantID = m2.EnvelopeID
+	}
+	verifObserve("c14retry", wantID, got != nil)
+	verifAssert(got != nil && got.Size == 0 && !got.UTF8 && got.Return == "" && got.EnvelopeID == wantID && got.Auth == nil && !got.RequireTLS, "C14.retry-second-call-observed-with-its-own-options")
+	verifReach("C14.retry-end")
+}
